@@ -180,6 +180,7 @@ class ParamModel:
         self.enable = None          # name of the enable_* field tested first, or None
         self.enable_ok = False
         self.conv = None            # (callee path, arg text)
+        self.conv_terms = []
         self.conv_ev = None
         self.reset_flag = None
         self.reset_ok = False
@@ -242,7 +243,11 @@ class MetaParserModel:
                         rk = ret_value_kind(e)
                         if isinstance(rk, tuple) and rk[1].endswith('attribute_incorrect_format'):
                             loops = [c for c in e.ctx if c['k'] == 'for']
-                            conds = [c for c in e.ctx if c['k'] == 'if' and c['pol'] and 'handler(' in es(c['cond']) and es(c['cond']).startswith('!')]
+                            cname = None
+                            for le in fw.events:
+                                if le.kind == 'let' and le.init is self.closure.node and le.defs:
+                                    cname = le.defs[0].name
+                            conds = [c for c in e.ctx if c['k'] == 'if' and c['pol'] and cname and es(c['cond']).replace(' ', '').startswith('!%s(' % cname)]
                             if loops and conds:
                                 info = analyse_iter(loops[-1]['iter'])
                                 if not info.adaptors and not info.rev:
@@ -325,6 +330,7 @@ class MetaParserModel:
                 x = e.init['expr']
                 if x['k'] == 'Call' and x['func']['k'] == 'Path':
                     g.conv = (x['func']['path']['s'], [es(a) for a in x['args']])
+                    g.conv_terms = [self.tm.term(a, e.scope) for a in x['args']]
                     g.conv_ev = e
                     g.conv_def = e.defs[0] if e.defs else None
                     seq.append(('conv', e.seq))
